@@ -258,11 +258,17 @@ def band_unit(u, res):
         import phonopy.phonon.band_structure as bsm
         old = bsm.estimate_band_connection
         bsm.estimate_band_connection = lambda prev, cur, order: list(reversed(list(order)))      # an arbitrary permutation (contract: returns a permutation)
+        class FakeGV:
+            """stands in for GroupVelocity: symbolic velocities indexed by (point on path, band in ascending-eigenvalue order, axis)"""
+            def run(s, q_points, perturbation=None):
+                s.group_velocities = symnp.symarray([SR(z3.Real("gv_%d_%d_%d" % (i, b, a))) for i in range(len(q_points)) for b in range(nb) for a in range(3)], (len(q_points), nb, 3))
+        ph._group_velocity = FakeGV()
         try:
-            ph.run_band_structure(path, with_eigenvectors=bool(with_e), is_band_connection=bool(conn))
+            ph.run_band_structure(path, with_eigenvectors=bool(with_e), is_band_connection=bool(conn), with_group_velocities=True)
             d = ph.get_band_structure_dict()
         finally:
             bsm.estimate_band_connection = old
+            ph._group_velocity = None
     key0 = "%s:band:e%d:c%d" % (PID, with_e, conn)
     for i, q in enumerate(path[0]):
         Dq = Dsym(q, nb); mid = mat_id(Dq); ev = EigStub.vals(mid, nb)
@@ -280,6 +286,12 @@ def band_unit(u, res):
         if with_e and not conn:
             Vw = [x for r in range(nb) for c in range(nb) for x in (SR(z3.Real("V_%s_%d_%d_re" % (mid, r, c))), SR(z3.Real("V_%s_%d_%d_im" % (mid, r, c))))]
             eq_terms(res, "band-path eigenvectors at point %d are the eigensolver output for the computed D(q)" % i, flat_c(d["eigenvectors"][0][i]), Vw, key0 + ":eigvec")
+        if ok and len(set(np.round(want, 9))) == nb:
+            # the group velocity reported in position k belongs to the mode whose frequency is reported in position k
+            permg = [int(np.argmin(np.abs(want - g))) for g in got]
+            gw = [SR(z3.Real("gv_%d_%d_%d" % (i, permg[k], a))) for k in range(nb) for a in range(3)]
+            eq_terms(res, "band-path group velocity in position k at point %d belongs to the frequency in position k (band connection %s)" % (i, bool(conn)),
+                     list(np.asarray(d["group_velocities"][0][i], dtype=object).ravel()), gw, key0 + ":gv_order", lambda: replay_band_conn())
         if with_e and conn and ok and len(set(np.round(want, 9))) == nb:
             # the eigenvector reported in column k must be the eigensolver's eigenvector of the eigenvalue reported in position k
             perm = [int(np.argmin(np.abs(want - g))) for g in got]
@@ -319,9 +331,26 @@ def replay_band_conn():
             V = d["eigenvectors"][0][i]; f = d["frequencies"][0][i]
             lam = (f / ph.unit_conversion_factor) ** 2 * np.sign(f)
             worst = max(worst, float(np.abs(D @ V - V * lam[None, :]).max()))
+        # (frequency, group velocity) pairs must be those a q-point list reports
+        try:
+            bsm.estimate_band_connection = lambda prev, cur, order: list(reversed(list(order)))
+            ph.run_band_structure(path, with_group_velocities=True, is_band_connection=True)
+            db = ph.get_band_structure_dict()
+        finally:
+            bsm.estimate_band_connection = old
+        ph.run_qpoints(path[0], with_group_velocities=True)
+        dq = ph.get_qpoints_dict()
+        for i in range(len(path[0])):
+            fb = db["frequencies"][0][i]; gb = db["group_velocities"][0][i]
+            fq = dq["frequencies"][i]; gq = dq["group_velocities"][i]
+            if np.min(np.diff(np.sort(fq))) < 1e-6:
+                continue
+            for k in range(len(fb)):
+                j = int(np.argmin(np.abs(fq - fb[k])))
+                worst = max(worst, float(np.abs(gb[k] - gq[j]).max()))
     finally:
         br.uninstall()
-    return worst > 1e-8, "band structure with band connection: reported eigenvectors do not diagonalise D(q) to the frequencies reported in the same positions (residual %.3g)" % worst
+    return worst > 1e-8, "band structure with band connection: eigenvectors / group velocities reported in position k do not belong to the frequency reported in position k (residual %.3g)" % worst
 
 
 def gv_history_unit(u, res):
